@@ -1119,10 +1119,54 @@ def api_amend_oracle(ctx):
                                 f"amend(inp='sub/') {got}, requests sent {nsent}", {"outcome": got, "requests": nsent}))
 
 
+def orphaned_supplier_case(ctx):
+    """A static file declared by a sub-plan; in the next build the top-level plan no longer calls the sub-plan,
+    and a step (run again because its own source changed) announces that file with `amend()` while nothing in the
+    workflow provides it any more (the file node is detached, its creator gone): the step must not be recorded as
+    SUCCEEDED on it."""
+    import copy
+
+    from simdirector import A, FifoSchedule, Project, SimDirector, plan_file
+
+    sub = [A.static("data/table.txt")]
+    report = [A.read_declared(), A.amend(inp=["data/table.txt"]), A.read("data/table.txt"), A.write_declared()]
+    v1 = [A.static("src/r.txt", "sub.py"), A.step("./sub.py", inp=["sub.py"], plan=True),
+          A.step("report", inp=["src/r.txt"], out=["out/report.txt"])]
+    v2 = [A.static("src/r.txt"), A.step("report", inp=["src/r.txt"], out=["out/report.txt"])]
+    project = Project(scripts={"./plan.py": v1, "./sub.py": sub, "report": report},
+                      files={"src/r.txt": "r1\n", "sub.py": plan_file(sub, note="sub"), "data/table.txt": "t\n",
+                             "plan.py": plan_file(v1, note="v1")})
+    where = {"scenario": "orphaned-supplier", "reproduce": "harness/props/c03.py: orphaned_supplier_case(ctx)"}
+    with SimDirector(copy.deepcopy(project), seed=3) as sim:
+        res = sim.build(njob=1, schedule=FifoSchedule())
+        if res.status != "done" or not res.ok:
+            ctx.stats.count("scenario:orphaned-supplier:first-build-" + res.status)
+            return
+        sim.apply([("script", "./plan.py", v2, ""), ("write", "plan.py", plan_file(v2, note="v2")),
+                   ("write", "src/r.txt", "r2\n")])
+        res = sim.build(njob=1, schedule=FifoSchedule(), keep_going=True)
+        ctx.stats.count("scenario:orphaned-supplier")
+        if res.status != "done":
+            return
+        rows = sim.query("SELECT step.state FROM step JOIN node ON node.i = step.node WHERE node.label = 'report' AND NOT node.detached")
+        supplier = sim.query("SELECT node.detached, node.creator FROM node WHERE node.kind = 'file' AND node.label = 'data/table.txt'")
+        from stepup.core.enums import StepState
+        succeeded = bool(rows) and rows[0][0] == StepState.SUCCEEDED.value
+        provided = bool(supplier) and not supplier[0][0]
+        if succeeded and not provided and "report" in res.commands:
+            ctx.finding(Finding(PID, "succeeded-on-input-nobody-provides",
+                                "'report' announced data/table.txt with amend() in a build in which no attached declaration "
+                                f"provides that file (node rows: {supplier}) and is recorded SUCCEEDED (exit status {res.returncode!r})",
+                                {**where, "returncode": repr(res.returncode), "events": [e[:2] for e in res.events][-12:]}))
+
+
 async def search(ctx):
     import simpool
 
+    import asyncio
+
     api_amend_oracle(ctx)
+    await asyncio.to_thread(orphaned_supplier_case, ctx)
 
     ncase = ctx.budget(1500, 30000)
     specs = [make_spec(ctx.seed, i, ctx.tier) for i in range(ncase)]
